@@ -124,6 +124,21 @@ class Model:
         return out
 
 
+_VCOUNT = [0]
+
+
+def every_fourth(d=None, key='verbose'):
+    """-v on a deterministic quarter of the tool runs (verbosity must not change anything the predicates or the models observe).
+    The decision is stored in the case dict `d` when one is given, so a replay repeats it."""
+    if d is not None and key in d:
+        return bool(d[key])
+    _VCOUNT[0] += 1
+    v = _VCOUNT[0] % 4 == 0
+    if d is not None:
+        d[key] = v
+    return v
+
+
 def hx(b):
     return b.hex() if b else '-'
 
